@@ -1,13 +1,420 @@
-/- C07 — first layer; see DESIGN.md §5 -/
+/-
+  C07 — Analysis and reordering never panic on any text.
+
+  In the Model every panic site of the crate (`unwrap` / `expect` / `assert!` / slice and index
+  errors) is a sticky `err : Option Panic` field, so "returns normally" is `err = none`.
+
+  * `C07_para`        — `compute_bidi_info_for_para` on a well-formed paragraph text, any data source;
+  * `C07_analysis`    — `BidiInfo::new` / `ParagraphBidiInfo::new`, any data source with `FSIWidth`;
+  * `C07_analysis_str`, `C07_analysis_u16` — the built-in tables, every `&str`, every `&[u16]`;
+  * `C07_line_levels` (and `C07_line_levels_any`, without well-formedness or uniformity),
+    `C07_visual_runs`, `C07_reorder_visual`, `C07_line_runs`, `C07_reorder_line`,
+    `C07_reorder_line_not_utf8` — the line queries one by one;
+  * `C07_total_u16` — analysis and every line query, built-in data, every `&[u16]`: complete;
+  * `C07_total_partial`, `C07_total_single_partial`, `C07_total_str_partial` — the same for any data
+    source / `&str`; `reorder_line` on a `str` needs the stored levels to be uniform within characters
+    (`UniformOn`, property C08), taken as a hypothesis — see the note before `C07_total_partial`.
+
+  The direction queries (`paraDirection`, `baseDirection`, `BidiInfo.hasRtl`, `ParagraphBidiInfo.hasRtl`,
+  `levelAt`) are total functions of the Model without an `err` component: the crate code they
+  transcribe contains no panic site, so there is nothing to state for them.
+
+  Helper lemmas: `UBidi/Lemmas/C07Runs.lean` (level runs are non-empty, BD13 asserts),
+  `UBidi/Lemmas/C07Neutral.lean` (bracket pairs sit at character starts, N0 `unwrap`s),
+  `UBidi/Lemmas/C07Line.lean` (L1 assert, run boundaries are character boundaries),
+  `UBidi/Lemmas/C07Levels.lean` (stored levels ≤ 126, one per code unit).
+-/
 import UBidi.Model.Reorder
 import UBidi.Spec.UAX9
 import UBidi.Spec.Reorder
+import UBidi.Lemmas.C07Runs
+import UBidi.Lemmas.C07Neutral
+import UBidi.Lemmas.C07Line
+import UBidi.Lemmas.C07Levels
+import UBidi.Lemmas.C01Base
+import UBidi.Lemmas.C10Slice
+import UBidi.Lemmas.C17
+import UBidi.Props.C02
+import UBidi.Props.C03
+import UBidi.Props.C04
+import UBidi.Props.C05
+import UBidi.Props.C11
+import UBidi.Props.C14
+import UBidi.Props.C18
 namespace UBidi.Props.C07
-open UBidi
+open UBidi UBidi.BidiClass UBidi.Lemmas.C07
 
-/-- the analysis of the empty text is empty and does not fail -/
-theorem empty_text (ds : DataSource) (d : Option Nat) :
-    (bidiInfo ds (Text.ofScalars []) d).levels = [] ∧ (bidiInfo ds (Text.ofScalars []) d).err = none := by
-  constructor <;> rfl
+/-! ### one paragraph -/
+
+/-- the analysis of one paragraph cannot panic: none of
+    `stack.last().unwrap()`, `assert_eq!(text.len(), original_classes.len())` (explicit.rs),
+    the three asserts of `isolating_run_sequences` (prepare.rs), `level_runs[0]` and the two
+    `chars().next().unwrap()` of N0, `raise(..).expect` and the `assert_eq!` of `resolve_levels`
+    (implicit.rs) is reachable -/
+theorem C07_para (ds : DataSource) (pl : Nat) (hpl : pl ≤ 1) (pure hasIso : Bool) (t : Text)
+    (hwf : t.WF) (ocs : List BidiClass) (hlen : ocs.length = t.len) :
+    (paraLevels ds pl pure hasIso t ocs).2 = none := by
+  unfold paraLevels
+  split
+  · rfl
+  · have hex := C11.C11_explicit_no_panic t hwf pl hpl ocs hlen
+    have hruns := explicit_runs_nonempty t hwf pl ocs
+    obtain ⟨hirs, hseqs⟩ := isolatingRunSequences_ok pl ocs (explicitCompute t pl ocs).levels
+      (explicitCompute t pl ocs).runs hasIso hruns
+    have hrs := resolveSequences_err ds t (explicitCompute t pl ocs).levels ocs
+      (isolatingRunSequences pl ocs (explicitCompute t pl ocs).levels (explicitCompute t pl ocs).runs hasIso).1
+      (explicitCompute t pl ocs).pcs hseqs
+    have hl125 : ∀ l ∈ (explicitCompute t pl ocs).levels, l ≤ 125 :=
+      fun l hl => (C11.C11_explicit_le_125 t pl hpl ocs l hl).2
+    obtain ⟨hL, hP⟩ := C11.C11_explicit_length t hwf pl ocs
+    have hrl := (C11.C11_resolved_le_126
+      (resolveSequences ds t (explicitCompute t pl ocs).levels ocs
+        (isolatingRunSequences pl ocs (explicitCompute t pl ocs).levels (explicitCompute t pl ocs).runs hasIso).1
+        (explicitCompute t pl ocs).pcs).1
+      (explicitCompute t pl ocs).levels hl125
+      (by rw [C01.Base.resolveSequences_length, hP, hL])).2.1
+    simp only [hex, hirs, hrs, hrl]
+    rfl
+
+/-- non-vacuity (test on a literal): "a RLE ( א LRI b PDI ) PDF" as a `&str` with its classes —
+    well formed, an explicit embedding, an isolate, and a bracket pair that opens in the first and
+    closes in the second level run of an isolating run sequence -/
+def exPara : Text := Text.ofScalars [0x61, 0x202B, 0x28, 0x5D0, 0x2066, 0x62, 0x2069, 0x29, 0x202C]
+def exParaCls : List BidiClass :=
+  [L, RLE, RLE, RLE, ON, R, R, LRI, LRI, LRI, L, PDI, PDI, PDI, ON, PDF, PDF, PDF]
+
+example : (0 : Nat) ≤ 1 ∧ exPara.WF ∧ exParaCls.length = exPara.len :=
+  ⟨by decide, C01.Base.ofScalars_WF _, by decide⟩
+/-- test: the levels of that paragraph (the general path is taken: not pure LTR, has isolates) -/
+example : paraLevels hardcoded 0 false true exPara exParaCls =
+    ([0, 0, 0, 0, 1, 1, 1, 1, 1, 1, 2, 1, 1, 1, 1, 1, 1, 1], none) := by decide +kernel
+/-- test: its sequences and the one bracket pair -/
+example :
+    let ex := explicitCompute exPara 0 exParaCls
+    let seqs := (isolatingRunSequences 0 exParaCls ex.levels ex.runs true).1
+    seqs.map (·.runs) = [[(0, 4)], [(10, 11)], [(4, 10), (11, 18)]] ∧
+    seqs.map (fun s => identifyBracketPairs hardcoded exPara s exParaCls ex.pcs) =
+      [[], [], [{ start := 4, stop := 14, startRun := 0, endRun := 1 }]] := by decide +kernel
+
+/-! ### the two analysis types -/
+
+/-- the levels that `compute_initial_info` stores for the paragraphs are 0 or 1 when the requested
+    base direction is auto, LTR or RTL -/
+theorem para_level_le_one (ds : DataSource) (t : Text) (hwf : t.WF) (d : Option Nat)
+    (hd : d = none ∨ d = some 0 ∨ d = some 1) :
+    ∀ p ∈ (computeInitialInfo ds t d true).paras, p.level ≤ 1 := by
+  intro p hp
+  obtain ⟨f, _, hg, _⟩ := Lemmas.C10.parasFrom_mem (Lemmas.C10.paras_good ds t hwf d).1 p hp
+  obtain ⟨_, _, _, hlv, _⟩ := hg
+  rw [← hlv]
+  rcases Lemmas.C17.lastLevel_le_one ds (t.subrange p.start p.stop) d hd false with h | h <;> omega
+
+/-- constructing either analysis type cannot panic, for every data source that gives class FSI
+    only to characters as long as U+2068 (`FSIWidth`), every well-formed text and each of the
+    three base-direction choices -/
+theorem C07_analysis (ds : DataSource) (t : Text) (hwf : t.WF) (hfsi : C02.FSIWidth ds t) (d : Option Nat)
+    (hd : d = none ∨ d = some 0 ∨ d = some 1) :
+    (bidiInfo ds t d).err = none ∧ (paragraphBidiInfo ds t d).err = none := by
+  constructor
+  · obtain ⟨hgood, _⟩ := Lemmas.C10.paras_good ds t hwf d
+    rw [Lemmas.C10.bidiInfo_eq]
+    simp only
+    obtain ⟨_, _, l3, _⟩ := Lemmas.C10.levels_fold ds t d _ _ t.len _ _ 0 hgood
+      ([], (computeInitialInfo ds t d true).err) rfl
+    apply l3 (C02.C02_no_panic ds t d hwf hfsi true)
+    intro p f hpf
+    obtain ⟨hw, _, hcls, hlv, _⟩ := Lemmas.C10.parasFrom_zip_mem hgood p f hpf
+    apply C07_para ds p.level ?_ _ _ _ hw
+    · rw [← hcls]; exact C02.C02_classes_length ds _ d hw false
+    · exact para_level_le_one ds t hwf d hd p (List.of_mem_zip hpf).1
+  · simp only [paragraphBidiInfo]
+    rw [C02.C02_no_panic ds t d hwf hfsi false]
+    rw [C07_para ds _ ?_ _ _ t hwf _ (C02.C02_classes_length ds t d hwf false)]
+    · rfl
+    · rcases Lemmas.C17.lastLevel_le_one ds t d hd false with h | h <;> omega
+
+/-- non-vacuity: `C02.exText` ("FSI א PDI ⏎ a FSI RLI b PDI ב", two paragraphs, the second with an
+    unclosed isolate) with the built-in data meets the hypotheses of `C07_analysis` -/
+example : (bidiInfo hardcoded C02.exText none).err = none ∧ (paragraphBidiInfo hardcoded C02.exText none).err = none :=
+  C07_analysis hardcoded C02.exText C02.exText_wf C02.exText_fsi none (Or.inl rfl)
+/-- test: and the analysis is not trivial there -/
+example : (bidiInfo hardcoded C02.exText none).levels =
+    [0, 0, 0, 1, 1, 0, 0, 0, 0, 0, 0, 0, 0, 1, 1, 1, 4, 1, 1, 1, 1, 1] := by decide +kernel
+
+/-! ### the built-in tables -/
+
+theorem lookup_rows (cl : BidiClass) (hcl : cl ≠ .L) : ∀ (tbl : List (Nat × Nat × BidiClass)) (c : Nat),
+    lookupTable tbl c = cl → ∃ r ∈ tbl, r.2.2 = cl ∧ r.1 ≤ c ∧ c ≤ r.2.1
+  | [], c, h => by simp only [lookupTable] at h; exact absurd h.symm hcl
+  | (lo, hi, k) :: rest, c, h => by
+    simp only [lookupTable] at h
+    split at h
+    · rename_i hc
+      exact ⟨(lo, hi, k), by simp, h, hc.1, hc.2⟩
+    · obtain ⟨r, hr, h1⟩ := lookup_rows cl hcl rest c h
+      exact ⟨r, by simp [hr], h1⟩
+
+/-- Bool checker: every row of class FSI is the single code point U+2068 -/
+def fsiRowsOK (tbl : List (Nat × Nat × BidiClass)) : Bool :=
+  tbl.all fun r => r.2.2 != .FSI || (r.1 == Gen.fcFSI && r.2.1 == Gen.fcFSI)
+
+/-- test of the checker on literals -/
+example : fsiRowsOK [(0x2067, 0x2067, .RLI), (0x2068, 0x2068, .FSI)] = true ∧
+    fsiRowsOK [(0x2067, 0x2068, .FSI)] = false := by decide
+
+/-- the class table has no row of class FSI other than U+2068 (proof over the whole table) -/
+theorem classTable_FSI_rows : fsiRowsOK Gen.classTable = true := by
+  decide +kernel
+
+theorem FSI_only_of_rows (tbl : List (Nat × Nat × BidiClass)) (hall : fsiRowsOK tbl = true) (c : Nat)
+    (h : lookupTable tbl c = .FSI) : c = Gen.fcFSI := by
+  obtain ⟨r, hr, h1, h2, h3⟩ := lookup_rows .FSI (by decide) tbl c h
+  have := List.all_eq_true.1 hall r hr
+  rw [h1] at this
+  simp only [show (BidiClass.FSI != BidiClass.FSI) = false from by decide, Bool.false_or,
+    Bool.and_eq_true, beq_iff_eq] at this
+  omega
+
+/-- U+2068 is the only code point to which the built-in data gives class FSI -/
+theorem hardcoded_FSI_only (c : Nat) (h : hardcoded.cls c = .FSI) : c = Gen.fcFSI := by
+  apply FSI_only_of_rows Gen.classTable classTable_FSI_rows
+  rw [← C14.C14_bidiClass_eq_lookup]
+  simp only [hardcoded] at h
+  exact h
+
+theorem hardcoded_FSIWidth (t : Text) (hwf : t.WF) : C02.FSIWidth hardcoded t :=
+  C02.FSIWidth_of_only hardcoded t hwf hardcoded_FSI_only
+
+/-- with the built-in data, for every `&str` (given by its scalar values) -/
+theorem C07_analysis_str (cs : List Nat) (d : Option Nat) (hd : d = none ∨ d = some 0 ∨ d = some 1) :
+    (bidiInfo hardcoded (Text.ofScalars cs) d).err = none ∧
+    (paragraphBidiInfo hardcoded (Text.ofScalars cs) d).err = none :=
+  C07_analysis hardcoded _ (C01.Base.ofScalars_WF cs) (hardcoded_FSIWidth _ (C01.Base.ofScalars_WF cs)) d hd
+
+/-- with the built-in data, for every `&[u16]` (lone surrogates included) -/
+theorem C07_analysis_u16 (u : List Nat) (h16 : ∀ x ∈ u, x < 65536) (d : Option Nat)
+    (hd : d = none ∨ d = some 0 ∨ d = some 1) :
+    (bidiInfo hardcoded (Utf16.toText u) d).err = none ∧
+    (paragraphBidiInfo hardcoded (Utf16.toText u) d).err = none :=
+  C07_analysis hardcoded _ (C18.C18_wf u h16) (hardcoded_FSIWidth _ (C18.C18_wf u h16)) d hd
+
+/-! ### the line queries, one by one -/
+
+/-- `reordered_levels(line)` and `reordered_levels_per_char(line)`: a line on character boundaries of a
+    well-formed text whose stored levels are uniform within characters (`C03_line`, restated) -/
+theorem C07_line_levels (t : Text) (hwf : t.WF) (classes : List BidiClass) (levels : List Nat) (pl a b : Nat)
+    (hab : a < b) (ha : t.isBoundary a = true) (hbb : t.isBoundary b = true)
+    (hc : classes.length = t.len) (hl : levels.length = t.len) (hul : C03.UniformOn t levels) :
+    (reorderedLevels t classes levels pl a b).2 = none ∧
+    (reorderedLevelsPerChar t classes levels pl a b).2 = none :=
+  ⟨(C03.C03_line t hwf classes levels pl a b (by omega) ha hbb hc hl hul).1,
+   (C03.C03_line t hwf classes levels pl a b (by omega) ha hbb hc hl hul).1⟩
+
+/-- the same from less: the `assert_eq!(reset_to, None)` of `reorder_levels` is unreachable for every
+    input, so only the range checks and (for `str`) the slicing on character boundaries matter -/
+theorem C07_line_levels_any (t : Text) (classes : List BidiClass) (levels : List Nat) (pl a b : Nat)
+    (hab : a ≤ b) (hbl : b ≤ levels.length) (hbc : b ≤ classes.length)
+    (hbd : t.enc = .utf8 → t.isBoundary a = true ∧ t.isBoundary b = true) :
+    (reorderedLevels t classes levels pl a b).2 = none ∧
+    (reorderedLevelsPerChar t classes levels pl a b).2 = none :=
+  ⟨reorderedLevels_err t classes levels pl a b hab hbl hbc hbd,
+   reorderedLevels_err t classes levels pl a b hab hbl hbc hbd⟩
+
+/-- `visual_runs_for_line` / `deprecated::visual_runs` (`C05_no_panic`, restated) -/
+theorem C07_visual_runs (lv : List Nat) (a b : Nat) (hab : a < b) (hb : b ≤ lv.length)
+    (h126 : ∀ l ∈ lv, l ≤ 126) : (visualRunsForLine lv a b).2 = none :=
+  C05.C05_no_panic lv a b hab hb h126
+
+/-- `reorder_visual` on any slice of valid levels (`C04_no_panic`, restated) -/
+theorem C07_reorder_visual (lv : List Nat) (h126 : ∀ l ∈ lv, l ≤ 126) : (reorderVisual lv).2 = none :=
+  C04.C04_no_panic lv h126
+
+/-- `visual_runs(para, line)`: the runs of the line levels -/
+theorem C07_line_runs (t : Text) (classes : List BidiClass) (levels : List Nat) (pl a b : Nat)
+    (hab : a < b) (hbl : b ≤ levels.length) (h126 : ∀ l ∈ levels, l ≤ 126) (hpl : pl ≤ 126) :
+    (visualRunsForLine (reorderedLevels t classes levels pl a b).1 a b).2 = none :=
+  C05.C05_no_panic _ a b hab (by rw [(C03.C03_outside t classes levels pl a b).1]; exact hbl)
+    (reorderedLevels_le t classes levels pl a b 126 hpl h126)
+
+/-- `reorder_line(line)` on a non-empty line on character boundaries, stored levels ≤ 126 and uniform
+    within characters: the level runs of the line then start and end on character boundaries, so the
+    `str` slices `&text[run]` exist -/
+theorem C07_reorder_line (t : Text) (hwf : t.WF) (classes : List BidiClass) (levels : List Nat)
+    (pl a b : Nat) (hab : a < b) (ha : t.isBoundary a = true) (hbb : t.isBoundary b = true)
+    (hc : classes.length = t.len) (hl : levels.length = t.len) (hul : C03.UniformOn t levels)
+    (h126 : ∀ l ∈ levels, l ≤ 126) (hpl : pl ≤ 126) :
+    (reorderLine t classes levels pl a b).2 = none :=
+  reorderLine_ok t hwf classes levels pl a b hab ha hbb hc hl hul h126 hpl
+
+/-- `reorder_line(line)` for `[u16]`: no slicing as `str`, hence no boundary or uniformity hypothesis -/
+theorem C07_reorder_line_not_utf8 (t : Text) (classes : List BidiClass) (levels : List Nat) (pl a b : Nat)
+    (henc : t.enc ≠ .utf8) (hab : a < b) (hbl : b ≤ levels.length) (hbc : b ≤ classes.length)
+    (h126 : ∀ l ∈ levels, l ≤ 126) (hpl : pl ≤ 126) :
+    (reorderLine t classes levels pl a b).2 = none :=
+  reorderLine_ok_not_utf8 t classes levels pl a b henc hab hbl hbc h126 hpl
+
+/-- non-vacuity of `C07_reorder_line` / `C07_line_levels`: the line `[4, 10)` of `C03.exText`
+    (space, U+10000, TAB — multi-unit characters, odd and even levels) meets the hypotheses -/
+example : (reorderLine C03.exText C03.exCls C03.exLv 1 4 10).2 = none :=
+  C07_reorder_line C03.exText C03.exText_wf C03.exCls C03.exLv 1 4 10 (by decide) (by decide) (by decide)
+    rfl rfl C03.exLv_uniform (by decide) (by decide)
+/-- test: the hypothesis on the boundaries cannot be dropped for a `str` — a line that ends inside
+    U+10000 panics (`byte index is not a char boundary`) -/
+example : (reorderLine C03.exText C03.exCls C03.exLv 1 4 7).2 = some .sliceBoundary := by decide
+/-- test: neither can uniformity — levels that change inside the two-unit character "é" make
+    `reorder_line` cut it in two -/
+example : (reorderLine (Text.ofScalars [0xE9, 0x5D0]) [L, L, R, R] [0, 1, 1, 1] 0 0 4).2 = some .sliceBoundary := by
+  decide
+
+/-! ### everything together -/
+
+/-- every line query on the line `[a, b)` of an analysis `(classes, levels, paraLevel)` returns normally:
+    `reordered_levels`, `reordered_levels_per_char`, `visual_runs`, `reorder_visual` on the line's levels,
+    `reorder_line` -/
+def LineQueriesOK (t : Text) (classes : List BidiClass) (levels : List Nat) (pl a b : Nat) : Prop :=
+  (reorderedLevels t classes levels pl a b).2 = none ∧
+  (reorderedLevelsPerChar t classes levels pl a b).2 = none ∧
+  (visualRunsForLine (reorderedLevels t classes levels pl a b).1 a b).2 = none ∧
+  (reorderVisual (slice (reorderedLevels t classes levels pl a b).1 a b)).2 = none ∧
+  (reorderLine t classes levels pl a b).2 = none
+
+/-- the line queries on stored classes and levels with one entry per code unit, levels ≤ 126: every
+    non-empty line inside the text, on character boundaries if the text is a `str`; uniformity of the
+    levels within characters is needed for a `str` only -/
+theorem lineQueries_ok (t : Text) (hwf : t.WF) (classes : List BidiClass) (levels : List Nat) (pl : Nat)
+    (hc : classes.length = t.len) (hl : levels.length = t.len) (h126 : ∀ l ∈ levels, l ≤ 126) (hpl : pl ≤ 126)
+    (hu : t.enc = .utf8 → C03.UniformOn t levels)
+    (a b : Nat) (hab : a < b) (hb : b ≤ t.len)
+    (hbd : t.enc = .utf8 → t.isBoundary a = true ∧ t.isBoundary b = true) :
+    LineQueriesOK t classes levels pl a b := by
+  have h1 := C07_line_levels_any t classes levels pl a b (by omega) (by omega) (by omega) hbd
+  refine ⟨h1.1, h1.2, C07_line_runs t classes levels pl a b hab (by omega) h126 hpl, ?_, ?_⟩
+  · apply C07_reorder_visual
+    intro l hl'
+    exact reorderedLevels_le t classes levels pl a b 126 hpl h126 l
+      (List.mem_of_mem_drop (List.mem_of_mem_take hl'))
+  · by_cases henc : t.enc = .utf8
+    · exact C07_reorder_line t hwf classes levels pl a b hab (hbd henc).1 (hbd henc).2 hc hl (hu henc) h126 hpl
+    · exact C07_reorder_line_not_utf8 t classes levels pl a b henc hab (by omega) (by omega) h126 hpl
+
+/-- what `BidiInfo::new` stores: one class and one level per code unit, valid levels, paragraph levels 0 / 1 -/
+theorem bidiInfo_stored (ds : DataSource) (t : Text) (hwf : t.WF) (d : Option Nat)
+    (hd : d = none ∨ d = some 0 ∨ d = some 1) :
+    (bidiInfo ds t d).classes.length = t.len ∧ (bidiInfo ds t d).levels.length = t.len ∧
+    (∀ l ∈ (bidiInfo ds t d).levels, l ≤ 126) ∧ ∀ p ∈ (bidiInfo ds t d).paras, p.level ≤ 1 := by
+  have hlv := para_level_le_one ds t hwf d hd
+  obtain ⟨hgood, _⟩ := Lemmas.C10.paras_good ds t hwf d
+  have := bidi_fold_levels ds t d _ _ t.len _ _ 0 hgood hlv ([], (computeInitialInfo ds t d true).err) rfl
+    (by simp)
+  rw [Lemmas.C10.bidiInfo_eq]
+  exact ⟨C02.C02_classes_length ds t d hwf true, this.1, this.2, hlv⟩
+
+/-- what `ParagraphBidiInfo::new` stores -/
+theorem paragraphBidiInfo_stored (ds : DataSource) (t : Text) (hwf : t.WF) (d : Option Nat)
+    (hd : d = none ∨ d = some 0 ∨ d = some 1) :
+    (paragraphBidiInfo ds t d).classes.length = t.len ∧ (paragraphBidiInfo ds t d).levels.length = t.len ∧
+    (∀ l ∈ (paragraphBidiInfo ds t d).levels, l ≤ 126) ∧ (paragraphBidiInfo ds t d).paraLevel ≤ 1 := by
+  have hp : (computeInitialInfo ds t d false).lastLevel ≤ 1 := by
+    rcases Lemmas.C17.lastLevel_le_one ds t d hd false with h | h <;> omega
+  exact ⟨C02.C02_classes_length ds t d hwf false, C01.Base.paraLevels_length ds _ _ _ t hwf _,
+    paraLevels_le_126 ds _ hp _ _ t hwf _, hp⟩
+
+/- NOTE on the `_partial` theorems below.  Full statement wanted: the same without the hypothesis
+   `t.enc = .utf8 → UniformOn t (…).levels`.  Missing: that the levels stored by the analysis are uniform
+   within every character (property C08).  `Props/C08.lean` proves it for the explicit, I1/I2 and fill
+   stages (`C08_uniform_levels_partial`); what is open there is that `resolveWeak` / `resolveNeutral`
+   keep the processing classes uniform within characters.  Everything else in the property — the
+   construction, `reordered_levels`, `reordered_levels_per_char`, `visual_runs`, `reorder_visual` for a
+   `str`, and all of it for `[u16]` — does not need it and is proved outright. -/
+
+/-- `BidiInfo`: construction and every query on every non-empty line (inside the text; on character
+    boundaries for a `str`) of every paragraph return normally -/
+theorem C07_total_partial (ds : DataSource) (t : Text) (hwf : t.WF) (hfsi : C02.FSIWidth ds t) (d : Option Nat)
+    (hd : d = none ∨ d = some 0 ∨ d = some 1)
+    (hu : t.enc = .utf8 → C03.UniformOn t (bidiInfo ds t d).levels) :
+    (bidiInfo ds t d).err = none ∧
+    ∀ p ∈ (bidiInfo ds t d).paras, ∀ a b, a < b → b ≤ t.len →
+      (t.enc = .utf8 → t.isBoundary a = true ∧ t.isBoundary b = true) →
+      LineQueriesOK t (bidiInfo ds t d).classes (bidiInfo ds t d).levels p.level a b := by
+  obtain ⟨h1, h2, h3, h4⟩ := bidiInfo_stored ds t hwf d hd
+  refine ⟨(C07_analysis ds t hwf hfsi d hd).1, ?_⟩
+  intro p hp a b hab hb hbd
+  exact lineQueries_ok t hwf _ _ p.level h1 h2 h3 (by have := h4 p hp; omega) hu a b hab hb hbd
+
+/-- `ParagraphBidiInfo`: construction and every query on every non-empty line return normally -/
+theorem C07_total_single_partial (ds : DataSource) (t : Text) (hwf : t.WF) (hfsi : C02.FSIWidth ds t)
+    (d : Option Nat) (hd : d = none ∨ d = some 0 ∨ d = some 1)
+    (hu : t.enc = .utf8 → C03.UniformOn t (paragraphBidiInfo ds t d).levels) :
+    (paragraphBidiInfo ds t d).err = none ∧
+    ∀ a b, a < b → b ≤ t.len → (t.enc = .utf8 → t.isBoundary a = true ∧ t.isBoundary b = true) →
+      LineQueriesOK t (paragraphBidiInfo ds t d).classes (paragraphBidiInfo ds t d).levels
+        (paragraphBidiInfo ds t d).paraLevel a b := by
+  obtain ⟨h1, h2, h3, h4⟩ := paragraphBidiInfo_stored ds t hwf d hd
+  refine ⟨(C07_analysis ds t hwf hfsi d hd).2, ?_⟩
+  intro a b hab hb hbd
+  exact lineQueries_ok t hwf _ _ _ h1 h2 h3 (by omega) hu a b hab hb hbd
+
+/-- **every `&[u16]`, built-in data — complete**: for every sequence of 16-bit code units (lone
+    surrogates included), each base-direction choice, both analysis types: the construction returns
+    normally, and so does every query on every non-empty line `a < b ≤ len` (for `BidiInfo`: with any
+    of its paragraphs) -/
+theorem C07_total_u16 (u : List Nat) (h16 : ∀ x ∈ u, x < 65536) (d : Option Nat)
+    (hd : d = none ∨ d = some 0 ∨ d = some 1) :
+    let t := Utf16.toText u
+    ((bidiInfo hardcoded t d).err = none ∧
+      ∀ p ∈ (bidiInfo hardcoded t d).paras, ∀ a b, a < b → b ≤ u.length →
+        LineQueriesOK t (bidiInfo hardcoded t d).classes (bidiInfo hardcoded t d).levels p.level a b) ∧
+    ((paragraphBidiInfo hardcoded t d).err = none ∧
+      ∀ a b, a < b → b ≤ u.length →
+        LineQueriesOK t (paragraphBidiInfo hardcoded t d).classes (paragraphBidiInfo hardcoded t d).levels
+          (paragraphBidiInfo hardcoded t d).paraLevel a b) := by
+  intro t
+  have hwf : t.WF := C18.C18_wf u h16
+  have henc : t.enc = .utf8 → False := fun h => by cases h
+  obtain ⟨m1, m2⟩ := C07_total_partial hardcoded t hwf (hardcoded_FSIWidth t hwf) d hd (fun h => (henc h).elim)
+  obtain ⟨s1, s2⟩ := C07_total_single_partial hardcoded t hwf (hardcoded_FSIWidth t hwf) d hd
+    (fun h => (henc h).elim)
+  exact ⟨⟨m1, fun p hp a b hab hb => m2 p hp a b hab hb (fun h => (henc h).elim)⟩,
+    ⟨s1, fun a b hab hb => s2 a b hab hb (fun h => (henc h).elim)⟩⟩
+
+/-- every `&str`, built-in data; see the NOTE above for the hypothesis `hu` -/
+theorem C07_total_str_partial (cs : List Nat) (d : Option Nat) (hd : d = none ∨ d = some 0 ∨ d = some 1)
+    (hu : C03.UniformOn (Text.ofScalars cs) (bidiInfo hardcoded (Text.ofScalars cs) d).levels) :
+    let t := Text.ofScalars cs
+    (bidiInfo hardcoded t d).err = none ∧
+    ∀ p ∈ (bidiInfo hardcoded t d).paras, ∀ a b, a < b → t.isBoundary a = true → t.isBoundary b = true →
+      LineQueriesOK t (bidiInfo hardcoded t d).classes (bidiInfo hardcoded t d).levels p.level a b := by
+  intro t
+  have hwf : t.WF := C01.Base.ofScalars_WF cs
+  obtain ⟨m1, m2⟩ := C07_total_partial hardcoded t hwf (hardcoded_FSIWidth t hwf) d hd (fun _ => hu)
+  refine ⟨m1, fun p hp a b hab ha hbb => m2 p hp a b hab ?_ (fun _ => ⟨ha, hbb⟩)⟩
+  rcases (Lemmas.C03.isBoundary_iff t b).1 hbb with h | ⟨s, hs, h⟩
+  · omega
+  · have := (Lemmas.C03.SegsFrom_bounds hwf.tiles).2 s hs; omega
+
+/-! ### non-vacuity of the combined theorems -/
+
+/-- "A", a surrogate pair, א, a lone high surrogate, "(1)", LF, a lone low surrogate, ב -/
+def exU16 : List Nat := [0x41, 0xD801, 0xDC01, 0x5D0, 0xD800, 0x28, 0x31, 0x29, 0x0A, 0xDC00, 0x5D1]
+
+/-- non-vacuity of `C07_total_u16`: `exU16` consists of 16-bit units; its first paragraph is `[0, 9)` at
+    level 0 (test), so the theorem applies to the line `[3, 8)` of that paragraph -/
+example : LineQueriesOK (Utf16.toText exU16) (bidiInfo hardcoded (Utf16.toText exU16) none).classes
+    (bidiInfo hardcoded (Utf16.toText exU16) none).levels 0 3 8 :=
+  (C07_total_u16 exU16 (by decide) none (Or.inl rfl)).1.2 { start := 0, stop := 9, level := 0 }
+    (by decide +kernel) 3 8 (by decide) (by decide)
+/-- test: the levels of `exU16` (two paragraphs, the second one right-to-left) -/
+example : (bidiInfo hardcoded (Utf16.toText exU16) none).levels = [0, 0, 0, 1, 1, 1, 2, 1, 0, 1, 1] ∧
+    (bidiInfo hardcoded (Utf16.toText exU16) none).paras =
+      [{ start := 0, stop := 9, level := 0 }, { start := 9, stop := 11, level := 1 }] := by decide +kernel
+
+/-- non-vacuity of `C07_total_str_partial` (hence of `C07_total_partial`): the hypothesis `hu` holds for
+    `C02.exText` (test, by evaluation), `[9, 22)` is its second paragraph, and the line `[10, 20)`
+    (FSI RLI b PDI) is on character boundaries -/
+example : LineQueriesOK C02.exText (bidiInfo hardcoded C02.exText none).classes
+    (bidiInfo hardcoded C02.exText none).levels 0 10 20 :=
+  (C07_total_str_partial [0x2068, 0x5D0, 0x2069, 0x0A, 0x61, 0x2068, 0x2067, 0x62, 0x2069, 0x5D1] none (Or.inl rfl)
+    (by unfold C03.UniformOn; decide +kernel)).2 { start := 9, stop := 22, level := 0 }
+    (by decide +kernel) 10 20 (by decide) (by decide +kernel) (by decide +kernel)
 
 end UBidi.Props.C07
